@@ -329,6 +329,7 @@ def select__child_path(self: XPathToken, context: ta.ContextType = None) \
         yield from self[0].select(context)
     else:
         items: set[ta.ItemType] = set()
+        results: list[ta.ItemType] = []
         for _ in self[0].select_with_focus(context):
             if not isinstance(context.item, XPathNode):
                 msg = f"Intermediate step contains an atomic value {context.item!r}"
@@ -336,16 +337,20 @@ def select__child_path(self: XPathToken, context: ta.ContextType = None) \
 
             for result in self[1].select(context):
                 if not isinstance(result, XPathNode):
-                    yield result
+                    results.append(result)
                 elif result in items:
                     pass
                 elif isinstance(result, ElementNode):
                     if result.value not in items:
                         items.add(result)
-                        yield result
+                        results.append(result)
                 else:
                     items.add(result)
-                    yield result
+                    results.append(result)
+
+        if len(items) == len(results):
+            results.sort(key=node_position)  # a node sequence: document order
+        yield from results
 
 
 @method('//')
@@ -356,6 +361,7 @@ def select__descendant_path(self: XPathToken, context: ta.ContextType = None) \
         raise self.missing_context()
     elif len(self) == 2:
         items: set[ta.ItemType] = set()
+        results: list[ta.ItemType] = []
         for _ in self[0].select_with_focus(context):
             if not isinstance(context.item, XPathNode):
                 raise self.error('XPTY0019')
@@ -363,16 +369,20 @@ def select__descendant_path(self: XPathToken, context: ta.ContextType = None) \
             for _ in context.iter_descendants():
                 for result in self[1].select(context):
                     if not isinstance(result, XPathNode):
-                        yield result
+                        results.append(result)
                     elif result in items:
                         pass
                     elif isinstance(result, ElementNode):
                         if result.value not in items:
                             items.add(result)
-                            yield result
+                            results.append(result)
                     else:
                         items.add(result)
-                        yield result
+                        results.append(result)
+
+        if len(items) == len(results):
+            results.sort(key=node_position)  # a node sequence: document order
+        yield from results
 
     else:
         if isinstance(context.document, DocumentNode):
